@@ -128,6 +128,15 @@ def make_stream(img: Dict[str, Any], rng=None, raw: Optional[bytes] = None):
     from pdfminer.pdftypes import PDFStream
     inline = img.get("place") == "inline"
     d = IL.image_dict(img, inline, abbreviate=img.get("abbr", True))
+    if "bits" in img:
+        d["BPC" if "BPC" in d else "BitsPerComponent"] = img["bits"]
+    if "cs" in img:
+        key = "CS" if "CS" in d else "ColorSpace"
+        full = {"G": "DeviceGray", "RGB": "DeviceRGB", "CMYK": "DeviceCMYK", "g": "G", "rgb": "RGB", "I": "Indexed"}
+        if img["cs"] == "N":
+            d.pop(key)
+        else:
+            d[key] = full[img["cs"]]
     attrs = {}
     for k, v in d.items():
         if isinstance(v, str):
@@ -149,6 +158,8 @@ def cs_code(img) -> str:
     if "cs" in img:
         return img["cs"]
     long = {"gray8": "G", "rgb8": "RGB", "bit1": "G", "jpeg-gray": "G", "jpeg-rgb": "RGB"}[k]
+    if img.get("place") == "inline" and img.get("abbr", True):
+        return long.lower()
     return long
 
 
@@ -668,7 +679,7 @@ def impl_inline(content: bytes, start: int, target: bytes, bufsiz: int) -> str:
         return "EOF"
     except Exception as e:  # noqa: BLE001
         return "E:" + type(e).__name__
-    return "OK %s %d" % (C.hx(data), p.bufpos + p.charpos - start)
+    return "OK %s %d" % (C.hx(data), p.bufpos + (p.charpos if p.buf else 0) - start)
 
 
 INL_ALPHABET = b"EI \r\n\t~>Q0aZ\x00\xff"
